@@ -64,16 +64,16 @@ func runType(t *testing.T, typ uint16, quick, thorough int) {
 	})
 }
 
-func TestType1(t *testing.T) { runType(t, 1, 150, 6000) }
-func TestType2(t *testing.T) { runType(t, 2, 150, 6000) }
-func TestType3(t *testing.T) { runType(t, 3, 150, 6000) }
-func TestType5(t *testing.T) { runType(t, 5, 150, 6000) }
+func TestType1(t *testing.T) { runType(t, 1, 150, 20000) }
+func TestType2(t *testing.T) { runType(t, 2, 150, 24000) }
+func TestType3(t *testing.T) { runType(t, 3, 150, 20000) }
+func TestType5(t *testing.T) { runType(t, 5, 150, 24000) }
 
 // TestInterleavedRequests: one client object per type creates several requests before any is finalized;
 // they are then issued and finalized in a drawn order. Every run must still be a valid, correctly bound issuance.
 func TestInterleavedRequests(t *testing.T) {
 	s := rt.S("interleaved").SetRule("one client object (package constructor) creates 2..4 requests of a type - same or different keys, challenges, nonces - before any is finalized; requests are evaluated and finalized in a drawn order; same oracle per run. non-trivial = every sequence; distinct by request bytes")
-	rt.Check(t, 120, 6000, func(t *rapid.T) {
+	rt.Check(t, 120, 24000, func(t *rapid.T) {
 		defer rt.Entropy(gen.Seed().Draw(t, "entropy"))()
 		typ := gen.Pick(t, []uint16{1, 2, 3, 5}, "type")
 		cl := gen.NewClients()
